@@ -110,7 +110,7 @@ static int inp_raw_run(const unsigned char *s, long n, long limit, out_t *o) {
   if (eff >= 4) {
     long c = (long)(int32_t)(((uint32_t)s[0] << 24) | ((uint32_t)s[1] << 16) | ((uint32_t)s[2] << 8) | s[3]);
     unsigned long ac = c < 0 ? 0UL - (unsigned long)c : (unsigned long)c;
-    if (ac > (1UL << 24)) { out_err(o, "toobig"); return 0; }     /* the library allocates before it reads */
+    if (ac > (1UL << 20)) { out_err(o, "toobig"); return 0; }     /* the library allocates before it reads */
     limbs = (ac * 8 + 63) / 64;
   }
   mpz_t x[3]; size_t ret[3]; int wf = 1, same = 1;
@@ -292,16 +292,18 @@ static int op_mpq_out_inp_str(int argc, tok_t *a, out_t *o) {
   if (rr == 0) out_ulong(o, mpz_wf(mpq_numref(y)) && mpz_wf(mpq_denref(y))); else { out_mpq(o, y); out_nextc(o, f); }
   fclose(f); free(w.buf); mpq_clear(q); mpq_clear(y); return 0;
 }
-/* mpf_out_inp_str base ndigits prec size exp [limbs] -> wret s<text> rret <mpf>   (predicate op) */
+/* mpf_out_inp_str base ndigits prec size exp [limbs] -> wret s<text> rret <mpf>   (predicate op; read back with base -|base|) */
 static int op_mpf_out_inp_str(int argc, tok_t *a, out_t *o) {
   NEED(argc == 6 && ISNUM(a[0]) && ISNUM(a[1]));
   long base = tok_long(&a[0]), nd = tok_long(&a[1]);
-  NEED((base == 0 || (base >= 2 && base <= 62)) && nd >= 0);
+  NEED((base == 0 || (base >= 2 && base <= 62) || (base <= -2 && base >= -36)) && nd >= 0);
+  /* mpf_out_str writes the exponent in decimal; mpf_inp_str reads a decimal exponent only for a negative base (manual) */
+  long rbase = base == 0 ? -10 : (base > 0 ? -base : base);
   mpf_t x, y; NEED(tok_mpf(x, a + 2) == 0); mpf_init2(y, 64 * (x->_mp_prec - 1));
   wr_t w; FILE *f = wr_open(&w, -1);
   size_t wr = mpf_out_str(f, base, nd, x); fclose(f);
   rd_t r; f = rd_open(&r, w.buf, w.len, -1);
-  size_t rr = mpf_inp_str(y, f, base); fclose(f);
+  size_t rr = mpf_inp_str(y, f, rbase); fclose(f);
   out_size(o, wr); out_bytes(o, w.buf ? w.buf : (unsigned char *)"", w.len); out_size(o, rr); out_mpf(o, y);
   free(w.buf); mpf_clear(x); mpf_clear(y); return 0;
 }
